@@ -97,6 +97,22 @@ RangeLoops == [
                                                           SIf(EBin(">=", EVar(Nn), EInt(2)), <<SContinue>>), P(50)>>),
                   SPrint(EVar(Nn))>> ]
 
+\* a jump taken on one iteration only (`tick()` is true on every other evaluation), after a declaration in
+\* the body: the next iteration starts clean, the statements after the jump are skipped once
+TK == <<116, 107>>
+TICK == <<116, 105, 99, 107>>
+TickDef == <<SDecl(EVar(TK), EInt(0)),
+             SFn(TICK, <<>>, FALSE, <<SAssign(EVar(TK), EBin("-", EInt(1), EVar(TK))), SReturn(EBin("==", EVar(TK), EInt(1)))>>)>>
+Guards == {"first", "second"}
+Dv == <<100, 118>>
+CondBody(g, j, pos) ==
+    LET jump == IF g = "first" THEN <<SIf(ECall(EVar(TICK), <<>>), J(j))>>
+                ELSE <<SIfElse(ECall(EVar(TICK), <<>>), <<P(9)>>, J(j))>> IN
+    CASE pos = 0 -> jump \o <<SDecl(EVar(Dv), EInt(1)), P(1)>>
+      [] pos = 1 -> <<SDecl(EVar(Dv), EInt(1)), P(1)>> \o jump \o <<SFn(<<104>>, <<>>, FALSE, <<>>), P(2)>>
+      [] pos = 2 -> <<SDecl(EVar(Dv), EInt(1))>> \o jump \o <<SOpAssign(EVar(Dv), "+", EInt(1)), SPrint(EVar(Dv))>>
+Loops == {"while", "forl", "fors", "foro"}
+
 \* parameter tuples: <<family, k1, k2, k3, j, pos, j2>>
 C07Params ==
     { <<"d1", k1, "-", "-", j, pos, "none">> : k1 \in CKinds, j \in Jumps, pos \in 0 .. 2 }
@@ -105,6 +121,9 @@ C07Params ==
     \cup { <<"mutl", m, "-", "-", "none", 0, "none">> : m \in DOMAIN Mutations }
     \cup { <<"muto", "-", "-", "-", "none", 0, "none">> }
     \cup { <<"rloop", r, "-", "-", "none", 0, "none">> : r \in DOMAIN RangeLoops }
+    \cup { <<"cond", k1, k2, g, j, pos, "none">> :
+             k1 \in Loops, k2 \in {"-", "block", "ift", "elif", "forl", "while", "call"}, g \in Guards,
+             j \in Jumps \ {"none"}, pos \in 0 .. 2 }
 
 C07ParamsThorough ==
     C07Params
@@ -128,6 +147,10 @@ C07ProgOf(p) ==
                             SFor(EVar(It(1)), EVar(Xs), <<SPrint(EVar(It(1))), Mutations[p[2]]>>),
                             SPrint(EVar(Xs))>>
       [] p[1] = "rloop" -> RangeLoops[p[2]]
+      [] p[1] = "cond" -> TickDef \o <<P(5)>>
+                          \o Wrap(p[2], 1, IF p[3] = "-" THEN CondBody(p[4], p[5], p[6])
+                                           ELSE <<P(3)>> \o Wrap(p[3], 2, CondBody(p[4], p[5], p[6])) \o <<P(4)>>)
+                          \o <<P(6)>>
       [] p[1] = "muto" -> <<SDecl(EVar(Xs), EObj(<<Pair(EStr(<<98>>), EInt(1))>>)),
                             SFor(EVar(It(1)), EVar(Xs),
                                  <<SPrint(EVar(It(1))),
